@@ -117,20 +117,28 @@ ASSUME_SK = ASSUME_CODEC + ["AES, HMAC-MD5/SHA1/SHA256 are uninterpreted in the 
 
 
 def run_c01(ctx, C):
-    codec_common(ctx, C, [GEN_SK], [], mcs=[MC_SK, mc_sk_knob("PeerKeys")], traces=("Trace_SK",))
+    codec_common(ctx, C, [GEN_SK, gen_hist("C01"), gen_hist("C01", long=True)], [], mcs=[MC_SK, mc_sk_knob("PeerKeys")], traces=("Trace_SK",))
 
 
 GEN_ADV = dict(module="Gen_Adversary", name="adversary")
 
 
 def run_c02(ctx, C):
-    codec_common(ctx, C, [GEN_ADV, GEN_SK], [], mcs=[MC_SK, mc_sk_knob("MacFirst"), mc_sk_knob("PeerKeys")], traces=("Trace_SK",))
+    codec_common(ctx, C, [GEN_ADV, GEN_SK, gen_hist("C02"), gen_hist("C02", long=True)], [], mcs=[MC_SK, mc_sk_knob("MacFirst"), mc_sk_knob("PeerKeys")], traces=("Trace_SK",))
 
 
-GEN_HIST = dict(module="Gen_Histories", name="histories", constants=dict(MaxOps=lambda ctx: 4 if ctx.thorough else 3, Stride=lambda ctx: 12 if ctx.thorough else 1),
+def gen_hist(prop, long=False):
+    """Behaviours of SKChannel on long-lived SA objects, attributed to the property of the calling check."""
+    if long:
+        return dict(module="Gen_Histories", name="histories_long", constants=dict(MaxOps=64, Stride=1, PropId='"%s"' % prop), invariants=("Emit",), trace=False,
+                    simulate=lambda ctx: "num=%d" % (3000 if ctx.thorough else 150), workers=16)
+    return dict(module="Gen_Histories", name="histories",
+                constants=dict(MaxOps=lambda ctx: 4 if ctx.thorough else 3, Stride=lambda ctx: 12 if ctx.thorough else 1, PropId='"%s"' % prop),
                 invariants=("Sound", "Emit"), trace=False, timeout=3000)
-GEN_HIST_LONG = dict(module="Gen_Histories", name="histories_long", constants=dict(MaxOps=64, Stride=1), invariants=("Emit",), trace=False,
-                     simulate=lambda ctx: "num=%d" % (3000 if ctx.thorough else 150), workers=16)
+
+
+GEN_HIST = gen_hist("C17")
+GEN_HIST_LONG = gen_hist("C17", long=True)
 
 
 def run_c17(ctx, C):
@@ -144,8 +152,13 @@ MC_SALIFE = dict(module="SALife", name="salife", constants=dict(MaxChildren=3, F
                  what="two-party key establishment with a random source that may fail at any read")
 
 
+KEY_AGREEMENT_KINDS = '{"dh", "new_ike_sa", "ike_derive", "keys_stress"}'
+
+
 def run_c07(ctx, C):
     codec_common(ctx, C, [GEN_KEYS, gen_obj("ikesa", "C07")], [], mcs=[MC_SALIFE, MC_OBJ, MC_OBJ_KNOB], traces=())
+    # "initiator and responder end up with identical SAs" also when several key agreements run at the same time
+    C.stage_race(ctx, dict(module="Gen_Schedules", name="keysets", prop="C07", constants=dict(Focus=KEY_AGREEMENT_KINDS)))
 
 
 GEN_CHILD = dict(module="Gen_Child", name="child", constants=dict(N=lambda ctx: 120 if ctx.thorough else 48), trace=False)
@@ -153,11 +166,12 @@ GEN_DH = dict(module="Gen_DH", name="dh", trace=False, replay_workers=16)
 
 
 def run_c08(ctx, C):
-    codec_common(ctx, C, [GEN_CHILD, GEN_KEYS, GEN_HIST, gen_obj("ikesa", "C08")], [], mcs=[MC_SALIFE, MC_SK, mc_sk_knob("ResetPerPrfBlock"), MC_OBJ], traces=())
+    codec_common(ctx, C, [GEN_CHILD, GEN_KEYS, gen_hist("C08"), gen_obj("ikesa", "C08")], [], mcs=[MC_SALIFE, MC_SK, mc_sk_knob("ResetPerPrfBlock"), MC_OBJ], traces=())
 
 
 def run_c09(ctx, C):
     codec_common(ctx, C, [GEN_DH, GEN_KEYS], [], mcs=[MC_SALIFE], traces=())
+    C.stage_race(ctx, dict(module="Gen_Schedules", name="dhsets", prop="C09", constants=dict(Focus='{"dh", "new_ike_sa", "rand", "rand_stress"}')))
 
 
 GEN_CIPHER = dict(module="Gen_Cipher", name="cipher")
@@ -221,10 +235,11 @@ def run_c18(ctx, C):
               mc_gor("goroutines_knob_scratch", 2, False, True, "violate")]:
         C.stage_mc(ctx, m)
     C.stage_race(ctx, dict(module="Gen_Schedules", name="sets"))
+    C.stage_cold(ctx, 40 if ctx.thorough else 10)
 
 
 def run_c06(ctx, C):
-    codec_common(ctx, C, [GEN_SK], [], mcs=[MC_SK], traces=("Trace_SK",))
+    codec_common(ctx, C, [GEN_SK, gen_hist("C06")], [], mcs=[MC_SK], traces=("Trace_SK",))
 
 
 def run_c04(ctx, C):
